@@ -9,7 +9,7 @@
 From Coq Require Import NArith ZArith List Bool Lia Permutation.
 From NGS Require Import Val Ints Morton ShardBytes MiniShard ShardFile ShardReader ShardSpecReader
   ShardCanon MiniShardProofs ShardFileProofs ShardReaderProofs ShardCloseProofs ShardSpecProofs
-  ShardTopProofs ShardImplProofs ShardWitness ShardWitnessProofs.
+  ShardTopProofs ShardImplProofs ShardWitness ShardWitnessProofs ShardSession ShardSessionProofs.
 Import ListNotations.
 Open Scope N_scope.
 
@@ -427,3 +427,72 @@ Example C05_chunk_io_second_store :
   ex_read (ex_files [(C, c0); (A, c16); (B, c16)]) c16 = Ok A.
 Proof. exact sh_second_store_example. Qed.
 Print Assumptions C05_chunk_io_second_store.
+
+(* ---------- accessor-level sessions: several scales, repeated close() ----------
+   Model: theories/Shard/ShardSession.v (ShardedFileAccessor.close ->
+   ShardedScale.close -> Shard.close with the dirty flag, the deleted data
+   buffers of closed minishards, the AttributeError / truncated file when a
+   closed shard is stored into again).  [sess_run cfg enc ienc st ops] runs a
+   list of  SStore key x y z payload / SClose ;  [sdir st k] is the directory
+   of scale k;  [phase_ops k ops] = the stores of ops into scale k, then SClose. *)
+
+(* close is idempotent: in EVERY state reachable from the empty accessor by
+   any sequence of stores and closes (valid or not, even after exceptions),
+   if close() returns normally then a second close() returns normally and
+   changes neither the writer state nor any file *)
+Theorem C05_close_idempotent : forall cfg enc ienc ops st1,
+  sess_close ienc (fst (sess_run cfg enc ienc sess_init ops)) = (st1, sok) ->
+  sess_close ienc st1 = (st1, sok).
+Proof. exact close_idempotent_reachable. Qed.
+Print Assumptions C05_close_idempotent.
+
+(* a scale written and closed through the accessor gets the files of the
+   single-scale model, to which C04_spec_reads_canonical, C04_canonical_wf,
+   C05_impl_reads_canonical and C05_never_stored apply *)
+Theorem C05_single_scale_session : forall cfg enc ienc k v sp ops cms,
+  cbits sp < 2 ^ 64 -> sp_m sp < 60 ->
+  cfg k = Some (v, sp) -> Forall2 (resolves v) ops cms -> ops <> [] ->
+  ops_valid sp cms -> sizes_ok sp enc ienc cms ->
+  exists st1,
+    sess_run cfg enc ienc sess_init (phase_ops k ops) = (st1, all_sok (phase_ops k ops)) /\
+    (forall name, blookup name (sdir st1 k) = blookup name (session_files sp enc ienc cms)).
+Proof. exact single_scale_session. Qed.
+Print Assumptions C05_single_scale_session.
+
+(* scale independence (the compute_dyadic_scales pattern): scale k1 is
+   written and closed, then scale k2 <> k1 is written and closed through the
+   same accessor.  No operation raises; the files of k2 are exactly those of
+   the session that writes k2 alone (and of the single-scale model); the
+   directory of k1 is left as the first close() wrote it. *)
+Theorem C05_scale_independent : forall cfg enc ienc k1 k2 v1 sp1 v2 sp2 ops1 cms1 ops2 cms2,
+  k1 <> k2 ->
+  cbits sp1 < 2 ^ 64 -> sp_m sp1 < 60 -> cfg k1 = Some (v1, sp1) ->
+  Forall2 (resolves v1) ops1 cms1 -> ops1 <> [] -> ops_valid sp1 cms1 -> sizes_ok sp1 enc ienc cms1 ->
+  cbits sp2 < 2 ^ 64 -> sp_m sp2 < 60 -> cfg k2 = Some (v2, sp2) ->
+  Forall2 (resolves v2) ops2 cms2 -> ops2 <> [] -> ops_valid sp2 cms2 -> sizes_ok sp2 enc ienc cms2 ->
+  exists st1 st2 stS,
+    sess_run cfg enc ienc sess_init (phase_ops k1 ops1) = (st1, all_sok (phase_ops k1 ops1)) /\
+    sess_run cfg enc ienc sess_init (phase_ops k1 ops1 ++ phase_ops k2 ops2) =
+      (st2, all_sok (phase_ops k1 ops1 ++ phase_ops k2 ops2)) /\
+    sess_run cfg enc ienc sess_init (phase_ops k2 ops2) = (stS, all_sok (phase_ops k2 ops2)) /\
+    (forall name, blookup name (sdir st2 k2) = blookup name (sdir stS k2)) /\
+    (forall name, blookup name (sdir st2 k2) = blookup name (session_files sp2 enc ienc cms2)) /\
+    sdir st2 k1 = sdir st1 k1 /\
+    (forall name, blookup name (sdir st2 k1) = blookup name (session_files sp1 enc ienc cms1)).
+Proof. exact scale_independent. Qed.
+Print Assumptions C05_scale_independent.
+
+Example C05_scale_independent_inhabited :
+  exists v, ex_cfg 0 = Some (v, ex_sp) /\ ex_cfg 1 = Some (v, ex_sp) /\ 0 <> 1 /\
+    cbits ex_sp < 2 ^ 64 /\ sp_m ex_sp < 60 /\
+    Forall2 (resolves v) ex_ops ex_cms /\ ex_ops <> [] /\
+    ops_valid ex_sp ex_cms /\ sizes_ok ex_sp ex_id ex_id ex_cms /\
+    snd (sess_run ex_cfg ex_id ex_id sess_init (phase_ops 0 ex_ops ++ phase_ops 1 (rev ex_ops)))
+      = all_sok (phase_ops 0 ex_ops ++ phase_ops 1 (rev ex_ops)).
+Proof. exact scale_independent_example. Qed.
+
+Example C05_close_idempotent_inhabited :
+  exists st1, sess_close ex_id (fst (sess_run ex_cfg ex_id ex_id sess_init
+                                   (phase_ops 0 ex_ops ++ map (store_sop 1) ex_ops))) = (st1, sok) /\
+              sess_close ex_id st1 = (st1, sok) /\ sdir st1 1 <> [] /\ sdir st1 0 = sdir st1 1.
+Proof. exact close_idempotent_example. Qed.
